@@ -405,6 +405,8 @@ func main() {
 		},
 		Exec:     func(h []event) (string, string, *seqx.Failure) { return exec(r, h) },
 		MaxDepth: depth, Workers: 16,
+		// every history of length <= 4 (alphabet 18) is executed whatever the canonical key says
+		NoMergeDepth: 3,
 	})
 	r.Set("traces_validated_against_impl", r.Count("transitions"))
 	r.Set("bounds", map[string]any{"subsystems": subsystems, "timeouts": fmt.Sprint(timeouts), "advance": "1ns, 499ms, 500ms (cut at the next tick instant)", "tick": tickEvery.String(), "depth": depth})
